@@ -285,6 +285,32 @@ func textAtoms() []rawAtom {
 	return out
 }
 
+// lstShells returns local symbol tables, each holding the given node in a position a reader
+// does not interpret.
+func lstShells(hole *model.Value) []*model.Value {
+	f := func(name string, v *model.Value) *model.Value { return v.WithField(model.T(name)) }
+	lst := func(kids ...*model.Value) *model.Value {
+		return model.StructV(kids...).WithAnn(model.T("$ion_symbol_table"))
+	}
+	syms := func() *model.Value { return f("symbols", model.ListV(model.StrV("a"))) }
+	imp := func(kids ...*model.Value) *model.Value {
+		return f("imports", model.ListV(model.StructV(kids...)))
+	}
+	return []*model.Value{
+		lst(syms(), f("name", model.ListV(hole))),
+		lst(f("version", model.StructV(f("max_id", model.Int64V(1)), f("name", hole))), syms()),
+		lst(syms(), f("$ion", model.SexpV(model.ListV(model.Int64V(1), hole)))),
+		lst(f("symbols", model.ListV(model.StrV("a"), model.ListV(hole), model.StrV("b")))),
+		lst(f("symbols", model.StructV(f("name", hole)))),
+		lst(f("imports", model.ListV(model.ListV(hole)))),
+		lst(f("imports", model.SexpV(hole))),
+		lst(imp(f("name", model.StrV("n")), f("version", model.Int64V(1)), f("max_id", model.Int64V(0)), f("symbols", model.SexpV(hole)))),
+		lst(imp(f("name", model.ListV(hole)), f("version", model.Int64V(1)), f("max_id", model.Int64V(0)))),
+		lst(imp(f("name", model.StrV("n")), f("version", model.StructV(f("name", hole))), f("max_id", model.Int64V(0)))),
+		lst(imp(f("name", model.StrV("n")), f("version", model.Int64V(1)), f("max_id", model.ListV(hole)))),
+	}
+}
+
 func runC07(c *Ctx) {
 	batoms, tatoms := binaryAtoms(), textAtoms()
 	ndocs := c.N(400, 12000)
@@ -363,6 +389,8 @@ func runC07(c *Ctx) {
 				}
 				// unterminated block comment / long string / dangling annotation at the very end
 				badCheck(c, false, "unterminated-block-comment", []byte(src+" /* never closed"), true)
+				badCheck(c, false, "unterminated-block-comment", []byte(src+" /*/"), true)
+				badCheck(c, false, "unterminated-block-comment", []byte(src+" /*/ x * /"), true)
 				badCheck(c, false, "unterminated-long-string", []byte(src+" '''never closed"), true)
 				badCheck(c, false, "unterminated-string", []byte(src+" \"never closed"), true)
 				badCheck(c, false, "dangling-annotation-at-eof", []byte(src+" ann::"), true)
@@ -383,6 +411,32 @@ func runC07(c *Ctx) {
 				continue
 			}
 			badCheck(c, false, at.name, []byte(p.B.String()), true)
+		}
+		// (4) the same atoms inside the parts of a local symbol table that a reader has no use for
+		// (open content, non-string symbols entries, non-struct imports entries, container-valued
+		// import fields): the document is just as malformed there
+		for rep := 0; rep < 4; rep++ {
+			hole := model.Int64V(0)
+			shells := lstShells(hole)
+			si := (i*4 + rep) % len(shells)
+			bat := batoms[(i*4+rep)/len(shells)%len(batoms)]
+			e := refbin.NewEncoder(newChoice(cs+int64(rep), 0.1), nil)
+			e.Raw = map[*model.Value][]byte{hole: bat.data}
+			e.AppendIVM()
+			e.Out = append(e.Out, e.Value(shells[si])...)
+			e.AppendValue(model.Int64V(7))
+			if e.Err == nil {
+				badCheck(c, true, "in-symbol-table:"+bat.name, e.Out, true)
+				c.Feat1(fmt.Sprintf("lst-shell:%d", si))
+			}
+			tat := tatoms[(i*4+rep)/len(shells)%len(tatoms)]
+			p := reftext.NewPrinter(newChoice(cs+int64(rep), 0.1))
+			p.Raw = map[*model.Value]string{hole: string(tat.data)}
+			p.AppendValue(shells[si])
+			p.AppendValue(model.Int64V(7))
+			if p.Err == nil {
+				badCheck(c, false, "in-symbol-table:"+tat.name, []byte(p.B.String()), true)
+			}
 		}
 		if i < 2 {
 			c.Sample(map[string]interface{}{"values": model.FmtAll(vals), "edits": "truncation at every interior offset of every top-level item; invalid atom substituted for a value node; unterminated comment/string; dangling annotation"})
